@@ -46,8 +46,11 @@ package server
 //@   ensures [then-stream] old(len(pc.buffer)) == 0 ==> pc.Conn.consumed == old(pc.Conn.consumed) + n && len(pc.buffer) == 0
 //@   modifies pc.Conn.consumed, p[:], pc.buffer
 //
+// compareAddr is a function of its two address values (addresses are not mutated after creation).
+//@ uf cmpaddr(net.Addr, net.Addr) bool
 //@ func compareAddr
 //@   check safety
+//@   ensures [assumed-fn] result == cmpaddr(addr1, addr2)
 //@   ensures [tcp] typeis(addr1, *net.TCPAddr) && typeis(addr2, *net.TCPAddr) && result ==> unbox(addr1, *net.TCPAddr).Port == unbox(addr2, *net.TCPAddr).Port
 //@   ensures [udp] typeis(addr1, *net.UDPAddr) && typeis(addr2, *net.UDPAddr) && result ==> unbox(addr1, *net.UDPAddr).Port == unbox(addr2, *net.UDPAddr).Port
 //@   ensures [kind] result ==> (typeis(addr1, *net.TCPAddr) && typeis(addr2, *net.TCPAddr)) || (typeis(addr1, *net.UDPAddr) && typeis(addr2, *net.UDPAddr))
@@ -61,10 +64,15 @@ package server
 //@   requires forall k net.Addr, i int :: 0 <= i && i < len(hc.ports[k]) ==> hc.ports[k][i] != nil
 //@   ensures [none] result2 != nil ==> result0 == nil && result1 == nil
 //@   ensures [some] result2 == nil ==> result0 != nil && result1 != nil
+//@   ensures [single] forall k net.Addr :: haskey(hc.ports, k) && cmpaddr(k, laddr(conn)) && len(hc.ports[k]) == 1 && (forall k2 net.Addr :: haskey(hc.ports, k2) && cmpaddr(k2, laddr(conn)) ==> k2 == k) ==> result2 == nil && result0 == hc.ports[k][0] && result1 == conn
+//@   ensures [no-port] (forall k net.Addr :: haskey(hc.ports, k) ==> !cmpaddr(k, laddr(conn))) ==> result2 != nil
 //@   ensures [stream-raw] result2 == nil && result1 == conn ==> conn.consumed == old(conn.consumed)
 //@   ensures [stream-peeked] result2 == nil && result1 != conn ==> typeis(result1, *peekConnection) && len(unbox(result1, *peekConnection).buffer) == conn.consumed - old(conn.consumed)
 //@   modifies *
 //@   loop 1: invariant forall i int :: 0 <= i && i < len(serviceCandidates) ==> serviceCandidates[i] != nil
+//@   loop 1: invariant forall k net.Addr :: visited(k) && cmpaddr(k, laddr(conn)) && (forall k2 net.Addr :: haskey(hc.ports, k2) && cmpaddr(k2, laddr(conn)) ==> k2 == k) ==> serviceCandidates == hc.ports[k]
+//@   loop 1: invariant (forall k net.Addr :: visited(k) ==> !cmpaddr(k, laddr(conn))) ==> len(serviceCandidates) == 0
+//@   loop 1: invariant forall k net.Addr :: visited(k) ==> haskey(hc.ports, k)
 //@   loop 2: invariant 0 <= n && n <= 1024
 //@   loop 2: invariant peekUninitialized ==> conn.consumed == old(conn.consumed)
 //@   loop 2: invariant !peekUninitialized ==> pConn != nil && fresh(pConn) && len(pConn.buffer) == conn.consumed - old(conn.consumed)
